@@ -38,7 +38,7 @@ def run(ctx, rep):
     r7 = rep.rule("P7.sources", "resolution = metadata.resolution; every builder receives this chart's tempo map; folds pass each "
                                 "datum once with its predecessor", floor=8)
     check_from_file_wiring(ctx, r7)
-    check_all_sections(ctx, r7)
+    check_all_sections(ctx, r7, strict=False)
     T.check_folds(r7)
     r8 = rep.rule("bpm", "tempo value = int(raw)/1000: one correctly rounded division (0.001 steps exact to the nearest float)", floor=1)
     check_bpm_value(ctx, r8, T)
